@@ -184,14 +184,43 @@ func c07r1(c *Ctx) {
 	}
 	// the value of the counter where it is used: the result of the outermost reader helper (a function returning the number
 	// and an error) on the way from the read up — in the entry point itself, or in a phase function below it
-	readRes := ""
+	readRes, nextAlias := "", ""
 	{
 		y := rd.s.Env
+		var inner ssa.Value // the call one level below whose result is the counter
 		for y != nil && y.Parent != nil && y.Call != nil {
 			res := y.Fn.Signature.Results()
 			if res.Len() == 2 && isInteger(res.At(0).Type()) && res.At(1).Type().String() == "error" {
+				// a helper above the reader counts only while it hands the number on unchanged (`getNextNonce` = reader + 1 does not)
+				if inner != nil {
+					passes := true
+					for _, ret := range returnsOf(y.Fn) {
+						if !isSuccessReturn(ret) {
+							continue
+						}
+						ex, isEx := retval(ret, 0).(*ssa.Extract)
+						if !isEx || ex.Index != 0 || ex.Tuple != inner {
+							passes = false
+						}
+					}
+					if !passes {
+						// … unless it hands on the reader's number plus one: its result is then another name of the next nonce
+						plusOne := true
+						innerT := leAtom(y.Term(inner) + "#0").addK(1).String()
+						for _, ret := range returnsOf(y.Fn) {
+							if isSuccessReturn(ret) && y.LE(retval(ret, 0)).String() != innerT {
+								plusOne = false
+							}
+						}
+						if cv, ok := y.Call.(ssa.Value); ok && plusOne {
+							nextAlias = y.Parent.Term(cv) + "#0"
+						}
+						break
+					}
+				}
 				if cv, ok := y.Call.(ssa.Value); ok {
 					readRes = y.Parent.Term(cv) + "#0"
+					inner = cv
 				}
 			} else {
 				break
@@ -210,6 +239,13 @@ func c07r1(c *Ctx) {
 	}
 	next := leAtom(readRes).addK(1).String()
 	want := "Bytes(bigU(" + next + "))"
+	norm := func(t string) string {
+		if nextAlias != "" {
+			return strings.ReplaceAll(t, nextAlias, next)
+		}
+		return t
+	}
+	wr.val = norm(wr.val)
 	if wr.val == want {
 		c.OK(rule, FuncName(r.Entry), "persisted counter = read + 1", pos, wr.val)
 	} else {
@@ -328,6 +364,7 @@ func c07r1(c *Ctx) {
 	}
 	for _, what := range []string{"metadata nonce", "return datum", "log topic"} {
 		got, ok := uses[what]
+		got = norm(got)
 		wantV := next
 		if what == "return datum" {
 			wantV = want
